@@ -113,7 +113,7 @@ class TreeSim(WorldBase):
             "mode": prop,
         }
         if prop == "C03" and rng.random() < 0.25:
-            cfg["leaf_default"] = rng.choice([5, -1])
+            cfg["leaf_default"] = rng.choice([5, -1, 0.5, 2.5])
         # swarm: op weights with dropout
         w = dict(BASE_WEIGHTS[prop])
         focus = FOCUS[prop]
@@ -519,6 +519,7 @@ class TreeSim(WorldBase):
     def _write(self, sl, point, box, act, v):
         d = sl.default
         cur = sl.model.get(point, d)
+        orig = box
         if act == "set":
             box <<= v
             new = v
@@ -552,6 +553,13 @@ class TreeSim(WorldBase):
             sl.model[point] = new
         else:
             sl.model.pop(point, None)
+        # `h op= x` rebinds the caller's name to whatever the operator returns: the in-place operators must
+        # hand back the very same box, otherwise the caller's next write through that name is lost
+        if box is not orig and act != "attr":
+            self.V("C03", "C03.inplace-returns-handle", "hw" if self.prop == "C03" else "write",
+                   f"in-place '{act}' through the handle at {point} returned a different object than the handle")
+            self.V("C05", "C05.ref-into-z", "populate",
+                   f"in-place '{act}' through the offered reference at {point} returned a different object")
         return {"act": act, "new": new}
 
     def op_hw(self, a, targets):
